@@ -6,8 +6,6 @@ SUITE=${1:-}
 PAR=${PAR:-4}
 mkdir -p /tmp/reval
 cd /verif
-ls seeded | grep -v obsolete | grep -v README | xargs -P $PAR -I{} bash -c "
-  C=\$(/venv/bin/python -c \"import json;print(json.load(open('/verif/seeded/{}/meta.json')).get('validation',{}).get('check_with',''))\" 2>/dev/null)
-  CHECKS=\"\$C\" JOBS=${JOBS:-3} tools/validate_seeded.sh /verif/seeded/{} $SUITE > /tmp/reval/{}.log 2>&1"
+ls seeded | grep -v obsolete | grep -v README | xargs -P $PAR -I{} bash -c "JOBS=${JOBS:-3} tools/validate_seeded.sh /verif/seeded/{} $SUITE > /tmp/reval/{}.log 2>&1"
 for f in /tmp/reval/C*.log; do n=$(basename $f .log); echo "$n: $(grep -c 'VIOLATION' $f) violation-line(s); $(grep -h 'demo on\|baseline:\|PATCH DOES NOT' $f | tr '\n' ';')"; done > /tmp/reval/SUMMARY.txt
 cat /tmp/reval/SUMMARY.txt
